@@ -22,7 +22,7 @@ CLAIMED = {
   'Trusted: Lean kernel, standard axioms; float summation order, wordnet.synsets(word) lookup (C09) and file parsing of load() are covered by correspondence/oracle only.'),
  'C01': (
   'Lean 4 executable relational model of _add.py/_queries.py/_core.py tied by full-observation correspondence and a document-level oracle; refinement theorems for the lexicon and entry slice',
-  'The whole add path (_precheck, lookup tables, _collect_frames, _insert_lexicon, lexid map, the fifteen _insert_* steps with their sub-select resolutions, NOT NULL/UNIQUE failures) and the query/entity layer are transcribed into Lean (Model/Add.lean, Query.lean, Api.lean) and run against the real library on generated resources (LMF 1.0-1.3, hostile strings, metadata everywhere, extensions using every documented pattern, extensions of extensions, lowered BATCH_SIZE): the complete public-API observation of every lexicon must agree with the model and with an independent document-level oracle field by field. Proved in Props/C01.lean (any database, any document): the lexicon row written by _insert_lexicon carries exactly the document attributes and metadata with a fresh rowid and leaves other rows alone (C01_lexicon_row), dependencies are recorded; _insert_entries writes exactly one row per non-external entry in document order with id, lemma part of speech and metadata (C01_entries_rows), duplicate ids fail; _insert_forms writes the lemma at rank 0 and one row per non-external Form at rank position+1 with the text of the document, script and id, character for character (C01_entry_forms, C01_form_rows); _insert_senses writes one row per local sense in entry order pointing at the entry and synset rows the ids resolve to, with lexicalized default and metadata (C01_sense_rows); _insert_synsets writes one row per local synset with id, pos, lexicalized, metadata, and the ILI link resolves back through the ilis table to exactly the ILI id of the document (C01_synsets_after_insert, with presupposed-ILI creation and rowid uniqueness); and, composed end to end, C01_words_end_to_end: for every plain lexicon (no Extends, no external entries) whose add succeeds on any store with sound entry/form references, words() of the new lexicon reports exactly the entries of the document in document order, each with id, lemma part of speech, lemma and further forms in order with written form, id and script unaltered (every later insert step is proved to leave entries and forms alone; ORDER BY on rowid / rank is proved to preserve document order); likewise C01_synsets_end_to_end: for every lexicon (plain or extension) synsets() of the new lexicon reports exactly the non-external synsets of the document in order with id, part of speech and ILI id; find_entries / find_senses / find_synsets decode exactly the stored rows (C01_words_decode/_complete, C01_senses_decode, C01_synsets_decode/_complete). The remaining insert steps (tags, pronunciations, counts, adjpositions, frames, relations, definitions, examples, proposed ILIs) and the composition into one end-to-end statement are tied by correspondence only: the refinement is partial.',
+  'The whole add path (_precheck, lookup tables, _collect_frames, _insert_lexicon, lexid map, the fifteen _insert_* steps with their sub-select resolutions, NOT NULL/UNIQUE failures) and the query/entity layer are transcribed into Lean (Model/Add.lean, Query.lean, Api.lean) and run against the real library on generated resources (LMF 1.0-1.3, hostile strings, metadata everywhere, extensions using every documented pattern, extensions of extensions, lowered BATCH_SIZE): the complete public-API observation of every lexicon must agree with the model and with an independent document-level oracle field by field. Proved in Props/C01.lean (any database, any document): the lexicon row written by _insert_lexicon carries exactly the document attributes and metadata with a fresh rowid and leaves other rows alone (C01_lexicon_row), dependencies are recorded; _insert_entries writes exactly one row per non-external entry in document order with id, lemma part of speech and metadata (C01_entries_rows), duplicate ids fail; _insert_forms writes the lemma at rank 0 and one row per non-external Form at rank position+1 with the text of the document, script and id, character for character (C01_entry_forms, C01_form_rows); _insert_senses writes one row per local sense in entry order pointing at the entry and synset rows the ids resolve to, with lexicalized default and metadata (C01_sense_rows); _insert_synsets writes one row per local synset with id, pos, lexicalized, metadata, and the ILI link resolves back through the ilis table to exactly the ILI id of the document (C01_synsets_after_insert, with presupposed-ILI creation and rowid uniqueness); and, composed end to end, C01_words_end_to_end: for every plain lexicon (no Extends, no external entries) whose add succeeds on any store with sound entry/form references, words() of the new lexicon reports exactly the entries of the document in document order, each with id, lemma part of speech, lemma and further forms in order with written form, id and script unaltered (every later insert step is proved to leave entries and forms alone; ORDER BY on rowid / rank is proved to preserve document order); likewise C01_senses_end_to_end (senses() of the new lexicon = the non-external senses of the document, entry by entry in order, each with its id, the id of its entry and the id of its synset) and C01_synsets_end_to_end: for every lexicon (plain or extension) synsets() of the new lexicon reports exactly the non-external synsets of the document in order with id, part of speech and ILI id; find_entries / find_senses / find_synsets decode exactly the stored rows (C01_words_decode/_complete, C01_senses_decode, C01_synsets_decode/_complete). The remaining insert steps (tags, pronunciations, counts, adjpositions, frames, relations, definitions, examples, proposed ILIs) and the composition into one end-to-end statement are tied by correspondence only: the refinement is partial.',
   'Trusted: Lean kernel, standard axioms; SQLite storage/ordering and the JSON metadata adapter are covered by correspondence only. Known finding F12 (unscoped tags/pronunciations).'),
  'C02': (
   'Lean 4 proof of loadTree v (dumpTree r) = ok r over a tree-level transcription of wn/lmf.py (dump / _dump_* / expat handlers / _validate_*), for every version and every normal-form resource; correspondence of dump and load with the model on generated resources',
